@@ -320,7 +320,19 @@ class ReturnStatementsTransformer(converter.Base):
 
   def visit_Try(self, node):
     node.body = self._visit_statement_block(node, node.body)
+    # The else clause continues the body: it must not run once the body has
+    # returned (a lowered return no longer leaves the body).
+    body_may_return = self.state[_Block].create_guard_next
     node.orelse = self._visit_statement_block(node, node.orelse)
+    if node.orelse and body_may_return:
+      template = """
+        if not do_return_var_name:
+          orelse
+      """
+      node.orelse = templates.replace(
+          template,
+          do_return_var_name=self.state[_Function].do_return_var_name,
+          orelse=node.orelse)
     node.finalbody = self._visit_statement_block(node, node.finalbody)
     node.handlers = self.visit_block(node.handlers)
     return node
